@@ -39,6 +39,20 @@ Inductive res :=
 | RRows (l : list (list Z))              (* one row of values per interval *)
 | RCoords (fwd : list Z) (bwd : list (Z * Z)) (rej : list bool).
 
+(* programs: Genome.get_intervals(.., stranded) followed by interval-producing methods and a strand-aware consumer *)
+Inductive pstep :=
+| PSorted                                (* .sorted() *)
+| PMerged (d : Z)                        (* .merged(d) *)
+| PClip                                  (* .clip() *)
+| PExtend (n : Z)                        (* .extended_to_size(n) *)
+| PRev                                   (* [::-1] *)
+| PMask (m : list bool)                  (* [boolean mask] *)
+| PLocWin (w l r : Z).                   (* .get_location(where).get_windows(..) *)
+Inductive pcons :=
+| CExtract                               (* GenomicArray[intervals] *)
+| CSeq                                   (* GenomicSequence[intervals] *)
+| CLocation (w : Z).                     (* .get_location(where) *)
+
 Inductive op :=
 | OCoords                                (* GlobalOffset.from_local_coordinates / to_local_coordinates *)
 | OPileup (geo : bool) | OMask (geo : bool)      (* geo: through Geometry(chrom_sizes) instead of Genome.get_intervals *)
@@ -49,7 +63,8 @@ Inductive op :=
 | OWindows (l r : Z)                     (* flank f: l = f, r = f+1 ; window_size w: l = w/2, r = w/2 + w mod 2 *)
 | OLocSorted
 | OExtract (stranded : bool)             (* GenomicArray[GenomicIntervals] *)
-| OSeq (stranded : bool).                (* GenomicSequence[GenomicIntervals] *)
+| OSeq (stranded : bool)                 (* GenomicSequence[GenomicIntervals] *)
+| OProg (stranded : bool) (steps : list pstep) (cons : pcons).   (* interval-producing steps, then a strand-aware use *)
 
 (* ---------- ignored chromosomes (genome_context.py: from_dict, __init__, mask_data) ---------- *)
 Definition has_us (n : list Z) : bool := existsb (Z.eqb 95) n.           (* '_' *)
@@ -434,6 +449,87 @@ Definition m_shift (o c d : Z) : Z := o + (d + 1) * c.     (* = gap_shift *)
 Definition model_geo_clip (szs : list Z) (es : list entry) : list entry :=
   map (fun e => set_se e (m_geo_clip_start (size_of szs (e_chr e)) (e_start e))
                          (m_geo_clip_stop (size_of szs (e_chr e)) (e_stop e))) es.
+
+(* ---------- programs: the object handed from method to method is (is_stranded flag, table) ---------- *)
+(* the rows merged() returns, strand column included (each merged row is the first row of its run) *)
+Definition merged_entries (szs : list Z) (d : Z) (es : list entry) : Z + list entry :=
+  if d <? 0 then inl E_ASSERT
+  else match check_bounds szs es with
+  | Some c => inl c
+  | None =>
+      let sh := map (fun e => set_se e (e_start e + gap_shift szs d (e_chr e)) (e_stop e + gap_shift szs d (e_chr e))) es in
+      if starts_sorted sh then
+        inr (map (fun e => set_se e (e_start e - gap_shift szs d (e_chr e)) (e_stop e - gap_shift szs d (e_chr e)))
+                 (merge1 d sh))
+      else inl E_ASSERT
+  end.
+(* GenomicIntervalsFull.extended_to_size rebuilds its result with from_intervals(.., genome_context) and does not hand
+   the strandedness flag on (HEAD: false).  notes/C10.fix-6.diff passes it on (then: true). *)
+Definition extend_keeps_strand := false.
+Definition pstate := (bool * list entry)%type.
+Definition model_step_gen (keep : bool) (szs : list Z) (st : pstate) (p : pstep) : Z + pstate :=
+  let '(fl, rows) := st in
+  match p with
+  | PSorted => inr (fl, model_sorted rows)
+  | PMerged d => match merged_entries szs d rows with inl c => inl c | inr l => inr (fl, l) end
+  | PClip => inr (fl, model_clip szs rows)
+  | PExtend n => inr (fl && keep, model_extend szs n rows)
+  | PRev => inr (fl, rev rows)
+  | PMask m => if len m =? len rows then inr (fl, mask_select m rows) else inl E_INDEX
+  | PLocWin w l r =>
+      inr (fl, model_clip szs (map (fun e => set_se e (model_location_fixed fl w e - l) (model_location_fixed fl w e + r)) rows))
+  end.
+Definition model_step := model_step_gen extend_keeps_strand.
+Fixpoint model_steps (szs : list Z) (st : pstate) (ps : list pstep) : Z + pstate :=
+  match ps with
+  | [] => inr st
+  | p :: r => match model_step szs st p with inl c => inl c | inr st' => model_steps szs st' r end
+  end.
+Definition model_cons (szs : list Z) (vals : list (list Z)) (st : pstate) (k : pcons) : res :=
+  let '(fl, rows) := st in
+  match k with
+  | CExtract => model_extract szs vals fl rows
+  | CSeq => model_seq vals fl rows
+  | CLocation w => RPos (map (fun e => (e_chr e, model_location_fixed fl w e)) rows)
+  end.
+Definition model_prog (szs : list Z) (vals : list (list Z)) (stranded : bool) (es : list entry) (ps : list pstep) (k : pcons) : res :=
+  match model_steps szs (stranded, es) ps with
+  | inl c => RErr c
+  | inr st => model_cons szs vals st k
+  end.
+
+(* Spec of a program: every step is the single-contig operation per chromosome on the rows, and the table stays as
+   stranded as it was created.  None = a step's precondition does not hold (nothing is required then). *)
+Definition spec_step (szs : list Z) (stranded : bool) (rows : list entry) (p : pstep) : option (list entry) :=
+  match p with
+  | PSorted => Some (sort_by triple rows)
+  | PMerged d => if sorted_by (fun e => (e_chr e, e_start e, 0)) rows && forallb (entry_good szs) rows && (0 <=? d)
+                 then Some (spec_merged szs d rows) else None
+  | PClip => Some (spec_clip szs rows)
+  | PExtend n => Some (spec_extend szs n rows)
+  | PRev => Some (rev rows)
+  | PMask m => if len m =? len rows then Some (mask_select m rows) else None
+  | PLocWin w l r =>
+      if (0 <=? w) && (w <=? 2)
+      then Some (map (fun e => clip2 (size_of szs (e_chr e)) (set_se e (spec_location stranded w e - l) (spec_location stranded w e + r))) rows)
+      else None
+  end.
+Fixpoint spec_steps (szs : list Z) (stranded : bool) (rows : list entry) (ps : list pstep) : option (list entry) :=
+  match ps with
+  | [] => Some rows
+  | p :: r => match spec_step szs stranded rows p with None => None | Some rows' => spec_steps szs stranded rows' r end
+  end.
+Definition spec_cons (szs : list Z) (vals : list (list Z)) (stranded : bool) (rows : list entry) (k : pcons) : option res :=
+  match k with
+  | CExtract => if forallb (entry_good szs) rows then Some (RRows (spec_extract vals stranded rows)) else None
+  | CSeq => if forallb (entry_good szs) rows then Some (RRows (spec_seq vals stranded rows)) else None
+  | CLocation w => if (0 <=? w) && (w <=? 2) then Some (RPos (map (fun e => (e_chr e, spec_location stranded w e)) rows)) else None
+  end.
+Definition spec_prog (szs : list Z) (vals : list (list Z)) (stranded : bool) (es : list entry) (ps : list pstep) (k : pcons) : option res :=
+  match spec_steps szs stranded es ps with
+  | None => None
+  | Some rows => spec_cons szs vals stranded rows k
+  end.
 
 (* The variants the checks run against.  When a repair is committed to /repo, switch the line:
      fix-1 (GenomicIntervalsFull.merged)   : model_merged    := model_merged_fixed
